@@ -52,7 +52,7 @@ def evalH (s : Sig) (body : PDict → Res Val) (unh : Call → Bool) :
       match attempts (fun st => evalH s body unh rest st c) (repeatOf p) st with
       | (st1, .ok v) => (st1, .ok v)
       | (st1, .error e) =>
-        if p.lookup "return_value" = some (.cell (.bool false)) then (st1, .error e)
+        if returnsValue p = false then (st1, .error e)
         else (st1, .ok ((p.lookup "value").getD (.cell .none)))
   | (.tryBack, _) :: rest, st, c =>
       match evalH s body unh rest st c with
@@ -88,5 +88,25 @@ def reach (s : Sig) : List (Cls × PDict) → Call → Call
   | (.tryValue, _) :: rest, c => reach s rest c
   | (.tryBack, _) :: rest, c => reach s rest c
   | (.cache, _) :: rest, c => reach s rest c
+
+/-! ### constructor applications BETWEEN calls
+
+`self.cache` is an item of the wrapper (`dictattr`), hence one of its parameters (`_kwargs`): a constructor that unwraps / cuts out
+a `cache_func` takes the dict object over (`kw = function._kwargs; kw.update(kwargs)`), and the shallow `copy(function)` shares
+it.  So the cache layer's dict SURVIVES re-wrapping: `g1 = cache_func(f); g1(1); g2 = cache_func(try_none(g1)); g2(1)` does
+not execute `f` again.  In the model the dict lives in `HSt`, outside the chain: a construction step changes the chain (`mk`)
+and keeps the state.  (Only the newest object is called: the constructor edits inner objects of its operand in place.) -/
+
+inductive HStep where
+  | call (c : Call)
+  | wrap (cls : Cls) (p : PDict)
+
+/-- replies and number of executions of the plain function so far, per `call` step -/
+def runSteps (s : Sig) (body : PDict → Res Val) (unh : Call → Bool) : WFn → HSt → List HStep → List (Res Val × Nat)
+  | _, _, [] => []
+  | fn, st, .wrap cls p :: rest => runSteps s body unh (mk cls p fn) st rest
+  | fn, st, .call c :: rest =>
+    let (st1, r) := evalH s body unh fn.chain st c
+    (r, st1.evals.length) :: runSteps s body unh fn st1 rest
 
 end Pyg
